@@ -89,6 +89,16 @@ class Extractor:
             isinstance(e, ast.Constant) and isinstance(e.value, str) for e in node.elts
         ):
             return tuple(e.value for e in node.elts)
+        # a module-level or class-level constant list of kinds
+        if isinstance(node, ast.Name) and node.id in self.mod.globals:
+            vals = [v for v in self.mod.globals[node.id] if v is not None]
+            if len(vals) == 1:
+                return self._kinds(vals[0])
+        if isinstance(node, ast.Attribute) and isinstance(node.value, ast.Name) and node.value.id in ("self", "Parser", "cls") \
+                and node.attr in self.parser.class_attrs:
+            return self._kinds(self.parser.class_attrs[node.attr])
+        if isinstance(node, ast.BinOp) and isinstance(node.op, ast.Add):
+            return self._kinds(node.left) + self._kinds(node.right)
         self.err(node, "token-kind argument")
 
     # ---- values -----------------------------------------------------------------------
